@@ -76,6 +76,7 @@ FUNCS = {
                   # (as decoded from the wire, or as the reassembly step builds it) the payload block carries its data
                   ('payload_data_present', 'implies(contains(ctr._block_num, 1), lookup(ctr._block_num, 1).btsd is not None)', [])],
         modifies=['pkt:PrimaryBlock.crc_value', 'pkt:CanonicalBlock.crc_value', 'pkt:CanonicalBlock.btsd',
+                  'pkt:PrimaryBlock._rx_items', 'pkt:CanonicalBlock._rx_items',
                   'Agent._seen_bundle_ident', 'Agent._fwd_queue', 'Ctr.actions', 'Ctr.status_reason', 'Ctr.route', 'Ctr.sender',
                   'ghost.finished', 'ghost.sched_send', 'ghost.consumed', 'ghost.step_failed'],
         loops={0: dict(invariant=[
